@@ -362,7 +362,46 @@ def m_other_sequences(sx):
     """same-instance sequences for the other multi-verb handlers"""
     import geckolib.driver.protocol as P
     from sx.loader import STRUCT_SHIM as S
-    which = sx.choice("which", 3)
+    which = sx.choice("which", 5)
+    if which == 3:
+        # the asyncio client keeps one partial-update handler for the whole connection: the second message decodes to
+        # its own changes only
+        from .common import drive
+
+        class Proto:
+            sent = []
+
+            def queue_send(self, h, *a):
+                self.sent.append(h)
+
+            def get_and_increment_sequence_counter(self, cmd):
+                return 7
+        h = P.GeckoAsyncPartialStatusBlockProtocolHandler(Proto())
+        for step in range(2):
+            n = sx.choice(f"changes{step}", 3)
+            ch = [(sx.word(f"pos{step}_{i}"), sx.bytes_(f"data{step}_{i}", 2)) for i in range(n)]
+            m = P.GeckoPartialStatusBlockProtocolHandler.report_changes(None, ch, parms=PARMS)
+            drive(h.async_handle(m._content, SENDER))
+            sx.check(len(h.changes) == n, "rt.seq.statp-change-count", lambda: f"{len(h.changes)} for {n}")
+            for (p0, d0), (p1, d1) in zip(ch, h.changes):
+                sx.check((p0 == p1) & (d0 == d1), "rt.seq.statp-change")
+        return
+    if which == 4:
+        # one long-lived packet handler (simulator, spa socket, consume loop) receiving from two different peers:
+        # sender parameters and payload are those of the packet just received
+        from .common import frame
+        h = P.GeckoPacketProtocolHandler()
+        for step in range(2):
+            src = [b"IOSaaa", b"ANDbbb"][step] if sx.choice(f"distinct_ids{step}", 2) else b"SAMEID"
+            dst = b"SPA" + sx.bytes_(f"dst{step}", 2)
+            sx.assume(ident_ok(dst))
+            addr = (f"10.0.0.{step + 1}", 10022 + step)
+            payload = b"APING" + sx.bytes_(f"seq{step}", 1)
+            h.handle(frame(payload, src, dst), addr)
+            sx.check(h.parms[0] == addr[0] and h.parms[1] == addr[1], "rt.seq.packet-sender-address", lambda: str(h.parms[:2]))
+            sx.check((h.parms[2] == src) & (h.parms[3] == dst), "rt.seq.packet-identifiers")
+            sx.check(h.packet_content == payload, "rt.seq.packet-content")
+        return
     if which == 0:
         h = P.GeckoWatercareProtocolHandler()
         order = [(b"GETWC", False), (b"REQWC", True)]
